@@ -14,6 +14,7 @@ import (
 	"verifharness/internal/c11"
 	"verifharness/internal/c12"
 	"verifharness/internal/c17"
+	"verifharness/internal/c19"
 	"verifharness/internal/c20"
 	"verifharness/internal/pc"
 	"verifharness/internal/rcv"
@@ -32,6 +33,7 @@ var commands = map[string]func(args []string) *rep.Report{
 	"c11": c11.Run,
 	"c12": c12.Run,
 	"c17": c17.Run,
+	"c19": c19.Run,
 	"c20": c20.Run,
 	"c06": pc.Run,
 	"c07": pc.RunReaders,
